@@ -202,7 +202,7 @@ pub fn cases(ctx: &Ctx) -> Vec<Case> {
         let mut img = rand_img(&mut r, i % 3 == 0);
         if r.chance(1, 25) {
             // malformed stream: wrong amount of pixel data
-            match r.below(3) { 0 => { img.px.pop(); } 1 => { img.px.push(7); if img.ba == 16 { img.px.push(9); } } _ => { img.px.truncate(img.px.len() / 2); if img.ba == 16 && img.px.len() % 2 == 1 { img.px.pop(); } } }
+            match r.below(3) { 0 => { img.px.pop(); if img.ba == 16 { img.px.pop(); } } 1 => { img.px.push(7); if img.ba == 16 { img.px.push(9); } } _ => { img.px.truncate(img.px.len() / 2); if img.ba == 16 && img.px.len() % 2 == 1 { img.px.pop(); } } }
         }
         let src = *r.pick(&[1usize, 1, 0, 2]);
         let first = match i % 5 { 0 => 3, 1 => 4, 2 => 3, 3 => 4, _ => *r.pick(&[0usize, 1, 2]) };
